@@ -1140,6 +1140,9 @@ func partsSdf2D(b *partsBuilder) {
 	b.add2("ArcSpiral2D", "k0_4turns", func() (sdf.SDF2, error) { return sdf.ArcSpiral2D(0.5, 0, 0, 4*sdf.Tau, 0.2) })
 	b.add2("ArcSpiral2D", "start_gt_end", func() (sdf.SDF2, error) { return sdf.ArcSpiral2D(1.0, 0, 6*sdf.Tau, sdf.Tau, 0.5) })
 	b.add2("ArcSpiral2D", "negative_a", func() (sdf.SDF2, error) { return sdf.ArcSpiral2D(-1.0, 30.0, 0, 3*sdf.Tau, 0.5) })
+	// radii that are negative at the end with the larger magnitude: negative angles, and an inward spiral through the centre
+	b.add2("ArcSpiral2D", "negative_angles", func() (sdf.SDF2, error) { return sdf.ArcSpiral2D(1.0, 0, -3*sdf.Tau, -sdf.Tau, 2.0) })
+	b.add2("ArcSpiral2D", "through_centre", func() (sdf.SDF2, error) { return sdf.ArcSpiral2D(-1.0, 6.0, 0, 4*sdf.Tau, 2.0) })
 
 	// cubic splines: the knot set of sdf/sdf_test.go, and a few small ones
 	knotsTest := []v2.Vec{
